@@ -662,7 +662,7 @@ DynamicBitset::const_iterator DynamicBitset::cend() const
 /// @since  1.37.0, 21.06.2020
 DynamicBitset::reverse_iterator DynamicBitset::rbegin()
 {
-   return reverse_iterator( this, mData.size() - 1);
+   return reverse_iterator( this, static_cast< ssize_t>( mData.size()) - 1);
 } // DynamicBitset::rbegin
 
 
@@ -690,7 +690,7 @@ DynamicBitset::reverse_iterator DynamicBitset::rend()
 /// @since  1.37.0, 21.06.2020
 DynamicBitset::const_reverse_iterator DynamicBitset::rbegin() const
 {
-   return const_reverse_iterator( this, mData.size() - 1);
+   return const_reverse_iterator( this, static_cast< ssize_t>( mData.size()) - 1);
 } // DynamicBitset::rbegin
 
 
@@ -718,7 +718,7 @@ DynamicBitset::const_reverse_iterator DynamicBitset::rend() const
 /// @since  1.37.0, 21.06.2020
 DynamicBitset::const_reverse_iterator DynamicBitset::crbegin() const
 {
-   return const_reverse_iterator( this, mData.size() - 1);
+   return const_reverse_iterator( this, static_cast< ssize_t>( mData.size()) - 1);
 } // DynamicBitset::crbegin
 
 
